@@ -6,9 +6,43 @@ def rwOneReader : Nat := 4
 def rwWriter : Nat := 1
 def rwWriterPending : Nat := 2
 def spinBusyLow : Nat := 253
+def spinChecks : Nat := 38
 def spinOneReader : Nat := 4
 def spinReadersMaskLow : Nat := 252
 def spinWriter : Nat := 1
 def spinWriterPending : Nat := 2
+/-- (lock kind, variable, access kind, std::memory_order executed, role: 1 acquiring / 2 releasing), from the E-SHIM traces -/
+def orders : List (String × String × String × Nat × Nat) := [
+  ("mutex", "word", "xchg", 5, 1),
+  ("mutex", "word", "xchg", 5, 2),
+  ("queuing_mutex", "going", "load", 2, 1),
+  ("queuing_mutex", "going", "store", 3, 2),
+  ("queuing_mutex", "tail", "cas", 4, 1),
+  ("queuing_mutex", "tail", "cas", 5, 2),
+  ("queuing_mutex", "tail", "xchg", 5, 1),
+  ("queuing_rw_mutex", "going", "load", 2, 1),
+  ("queuing_rw_mutex", "going", "store", 3, 2),
+  ("queuing_rw_mutex", "tail", "cas", 3, 2),
+  ("queuing_rw_mutex", "tail", "cas", 4, 1),
+  ("queuing_rw_mutex", "tail", "xchg", 4, 1),
+  ("rw_mutex", "word", "cas", 5, 1),
+  ("rw_mutex", "word", "fadd", 5, 1),
+  ("rw_mutex", "word", "fadd", 5, 2),
+  ("rw_mutex", "word", "fand", 5, 2),
+  ("rw_mutex", "word", "fsub", 5, 2),
+  ("speculative_spin_mutex", "word", "store", 3, 2),
+  ("speculative_spin_mutex", "word", "xchg", 5, 1),
+  ("speculative_spin_rw_mutex", "word", "cas", 5, 1),
+  ("speculative_spin_rw_mutex", "word", "fadd", 5, 1),
+  ("speculative_spin_rw_mutex", "word", "fadd", 5, 2),
+  ("speculative_spin_rw_mutex", "word", "fand", 5, 2),
+  ("speculative_spin_rw_mutex", "word", "fsub", 5, 2),
+  ("spin_mutex", "word", "store", 3, 2),
+  ("spin_mutex", "word", "xchg", 5, 1),
+  ("spin_rw_mutex", "word", "cas", 5, 1),
+  ("spin_rw_mutex", "word", "fadd", 5, 1),
+  ("spin_rw_mutex", "word", "fadd", 5, 2),
+  ("spin_rw_mutex", "word", "fand", 5, 2),
+  ("spin_rw_mutex", "word", "fsub", 5, 2)]
 
 end TbbVerif.Generated.C08
